@@ -19,6 +19,7 @@ import (
 	"hash/fnv"
 	"os"
 	"path/filepath"
+	"runtime/debug"
 	"sort"
 	"strings"
 	"sync"
@@ -246,7 +247,7 @@ func Run[S any](t *testing.T, spec Spec[S]) {
 		}
 		cur, _ := json.Marshal(replayFile{Property: spec.Property, Check: spec.Name, Scenario: sj})
 		os.WriteFile(curPath, cur, 0o644)
-		res := spec.Exec(s)
+		res := safeExec(spec, s)
 		sh.Evaluations++
 		sh.Excluded += res.Excluded
 		for _, c := range res.Classes {
@@ -290,6 +291,68 @@ func Run[S any](t *testing.T, spec Spec[S]) {
 	os.Remove(curPath)
 }
 
+// safeExec runs one case. A panic that starts inside the code under test (the first frame below the runtime's is a
+// function of the alertmanager module) on the goroutine that executes the case is a violation of every property
+// ("never crashes") and is reported as kind "panic" with the case, so that it is shrunk and replayable; any other panic
+// (the harness's own code, the Go runtime) is passed on and ends the run as inconclusive.
+func safeExec[S any](spec Spec[S], s S) (res Result) {
+	defer func() {
+		p := recover()
+		if p == nil {
+			return
+		}
+		stack := string(debug.Stack())
+		if !panicUnderTest(stack) {
+			panic(p)
+		}
+		res = Result{Violations: []Violation{V("panic", "the code under test panicked: %v\n%s", p, firstFrames(stack, 12))}}
+	}()
+	return spec.Exec(s)
+}
+
+// panicUnderTest reports whether, in a stack printed by debug.Stack inside a deferred recover, the function that
+// raised the panic belongs to the module under test.
+func panicUnderTest(stack string) bool {
+	lines := strings.Split(stack, "\n")
+	seenPanic := false
+	for _, l := range lines {
+		if strings.HasPrefix(l, "\t") || strings.HasPrefix(l, "goroutine ") || l == "" {
+			continue
+		}
+		if strings.HasPrefix(l, "panic(") {
+			seenPanic = true
+			continue
+		}
+		if !seenPanic {
+			continue
+		}
+		if strings.HasPrefix(l, "runtime.") || strings.HasPrefix(l, "runtime/") {
+			continue
+		}
+		return strings.HasPrefix(l, "github.com/prometheus/alertmanager/")
+	}
+	return false
+}
+
+func firstFrames(stack string, n int) string {
+	lines := strings.Split(stack, "\n")
+	var out []string
+	seenPanic := false
+	for _, l := range lines {
+		if strings.HasPrefix(l, "panic(") {
+			seenPanic = true
+			continue
+		}
+		if seenPanic && !strings.HasPrefix(l, "\t") && l != "" {
+			out = append(out, l)
+			if len(out) >= n {
+				break
+			}
+		}
+	}
+	return strings.Join(out, "\n")
+}
+
 func runReplay[S any](t *testing.T, spec Spec[S], path string) {
 	b, err := os.ReadFile(path)
 	if err != nil {
@@ -307,7 +370,7 @@ func runReplay[S any](t *testing.T, spec Spec[S], path string) {
 	if err := dec.Decode(&s); err != nil {
 		t.Fatalf("REPLAY-ERROR scenario does not decode: %v", err)
 	}
-	res := spec.Exec(s)
+	res := safeExec(spec, s)
 	fmt.Printf("REPLAY-RAN check=%s violations=%d\n", spec.Name, len(res.Violations))
 	if len(res.Violations) > 0 {
 		for _, v := range res.Violations {
